@@ -144,6 +144,11 @@ func (b *Broker) serve(c net.Conn, id int) {
 			if b.OnMetadata != nil {
 				leader, perr = b.OnMetadata(id)
 			}
+			if perr == OffsetHang {
+				// the request was read; no response, connection kept open
+				io.Copy(io.Discard, c)
+				return
+			}
 			be32(&body, 1) // brokers
 			be32(&body, leader)
 			wstr(&body, "fake")
